@@ -73,6 +73,8 @@ def motion_filter_ids(Rs, ps, d, a_rad):
     for i in range(1, len(ps)):
         path += float(np.linalg.norm(ps[i] - ps[i - 1]))
         ang = geom.rot_angle(Rs[last].T @ Rs[i])
+        if abs(path - d) < 1e-9 * max(1.0, d) or abs(ang - a_rad) < 1e-9:
+            raise Ambiguous("motion filter threshold hit within rounding")
         if path >= d or ang >= a_rad:
             ids.append(i)
             last = i
